@@ -507,6 +507,41 @@ func groupEvoMix() {
 	}
 }
 
+// Go representation corner cases of the *argument*: structs that the runtime stores directly in an
+// interface word (exactly one pointer-shaped field: pointer, map), passed by value; and readers with
+// no schema field at all (empty struct, only untagged fields, only the holder) whose writer uses
+// field id 0.
+func groupShapes() {
+	for _, t := range []*Ty{ptr(sref(leaf)), mapOf(prim("string"), prim("string")), ptr(prim("int64")),
+		mapOf(prim("int32"), ptr(sref(leaf))), ptr(prim("string"))} {
+		s := newStruct("byvalue")
+		req := "default"
+		if t.K == "ptr" {
+			req = "optional"
+		}
+		s.add("Only", t, 1, req)
+	}
+	w := newStruct("emptyw")
+	w.add("Z", prim("int32"), 0, "default")
+	w.add("A", prim("string"), 1, "default")
+	w.add("L", list(prim("int64")), 5, "default")
+	e1 := newStruct("empty")
+	e1.Writer = w.Sid
+	e2 := newStruct("empty")
+	e2.Writer = w.Sid
+	e2.addRaw("Untagged", prim("int32"), "", -1, false)
+	e3 := newStruct("empty")
+	e3.Writer = w.Sid
+	e3.addHolder()
+	nw := newStruct("emptyw")
+	nw.add("Sub", ptr(sref(w)), 1, "optional")
+	nw.add("Subs", list(ptr(sref(w))), 2, "default")
+	nr := newStruct("empty")
+	nr.Writer = nw.Sid
+	nr.add("Sub", ptr(sref(e3)), 1, "optional")
+	nr.add("Subs", list(ptr(sref(e1))), 2, "default")
+}
+
 // optional-pointer forms of string and binary, copied and nocopy (C14: "in both its plain and
 // optional-pointer forms"; a `*[]byte` must come back as a well-formed slice: D12)
 func groupPtrBinary() {
@@ -1197,6 +1232,7 @@ func main() {
 	groupNoCopy()
 	groupPtrBinary()
 	groupEvoMix()
+	groupShapes()
 	groupEvolution()
 	groupSpellings()
 	groupInvalid()
